@@ -203,6 +203,20 @@ NPairs(row, h) == LET og == OuterAsg(h, row.o) IN
    LET F[S \in SUBSET pairs] == IF S = {} THEN 0 ELSE LET x == CHOOSE y \in S : TRUE IN
                                   (n \div rad[x[1]]) * Cardinality(x[4]) + F[S \ {x}] IN F[pairs]
 
+\* ---- equality (C07), relation only: all objects of a row were put into one Python set / dict by the driver; the number of
+\* distinct objects must be the number of distinct *defined parts* the row contains (product over the dimensions, which write
+\* disjoint metrics), and the same for the number of distinct cleaned vectors
+DefinedPartOf(ver, opt) == [m \in {k \in DOMAIN opt : opt[k] # NDOf(ver)} |-> opt[m]]
+RECURSIVE ProdDistinct(_,_)
+ProdDistinct(h, dd) == IF dd > Len(h.inner) THEN 1
+                       ELSE Cardinality({DefinedPartOf(h.ver, h.inner[dd].opts[p]) : p \in 1..Len(h.inner[dd].opts)}) * ProdDistinct(h, dd+1)
+EqSetsRow(row, h) == LET want == ProdDistinct(h, 1) IN
+   IF ~Disjoint(h, OuterAsg(h, row.o)) THEN "shape-disjoint"
+   ELSE IF row.set_size # want THEN "eqsets set-of-objects has " \o ToString(row.set_size) \o " members, the specification's equality admits " \o ToString(want)
+   ELSE IF row.dict_size # want THEN "eqsets dict-of-objects has " \o ToString(row.dict_size) \o " keys, expected " \o ToString(want)
+   ELSE IF row.distinct_clean # want THEN "eqsets distinct cleaned vectors " \o ToString(row.distinct_clean) \o ", expected " \o ToString(want)
+   ELSE "ok"
+
 \* coverage report per row: macrovectors touched (v4)
 MacroStr(mv) == ToString(mv[1]) \o ToString(mv[2]) \o ToString(mv[3]) \o ToString(mv[4]) \o ToString(mv[5]) \o ToString(mv[6])
 RowMacros(row, h) == LET og == TLCEval(OuterAsg(h, row.o))  str == TLCEval(Strides(h.inner))
@@ -214,10 +228,11 @@ Verdict(row) ==
    IF Len(row.obs) # Size(h.inner) * h.slots /\ ~SpecMode THEN "shape"
    ELSE IF ~SamplesOK(row, h) THEN "samples"
    ELSE IF Mode = "oracle" THEN OracleRow(row, h)
+   ELSE IF Mode = "eqsets" THEN EqSetsRow(row, h)
    ELSE MonoRow(row, h)
 Inv == ph = 0 \/ LET row == Rows[i]  v == Verdict(row) IN
        /\ (v = "ok" \/ PrintT("FAIL " \o ToString(i) \o " " \o v))
        /\ (Mode = "oracle" /\ Tables[row.t].ver = "4" /\ "cov" \in DOMAIN Tables[row.t]
              => PrintT("COV " \o ToString(i) \o " " \o ToString({MacroStr(x) : x \in RowMacros(row, Tables[row.t])})))
-       /\ (Mode # "oracle" => PrintT("CMP " \o ToString(i) \o " " \o ToString(NPairs(row, Tables[row.t]))))
+       /\ (Mode \notin {"oracle", "eqsets"} => PrintT("CMP " \o ToString(i) \o " " \o ToString(NPairs(row, Tables[row.t]))))
 =============================================================================
